@@ -83,6 +83,23 @@ def _resized(o):
     return v[:n0][::-1] * 1.25 - 0.1
 
 
+def _shortened(o):
+    """a record a few samples shorter / longer with the same padded FFT length (toggles between n and n-7)"""
+    v = np.asarray(o.values, dtype=float)
+    n0 = getattr(o, '_mc_n0', len(v))
+    if len(v) == n0:
+        return v[:n0 - 7] * 0.8 + 0.3
+    return np.concatenate([v, np.linspace(0.5, -0.5, 7)])[:n0] * 1.1 - 0.2
+
+
+def _nearly_same_sf(o):
+    """smoothing frequencies that differ from the current ones by a relative 8e-6 (below the default np.allclose tolerance)"""
+    f = np.array(o.smooth_fa_freqs, dtype=float)
+    k = getattr(o, '_mc_sfk', 0)
+    o._mc_sfk = k + 1
+    o.smooth_fa_freqs = f * (1 + 8e-6) if k % 2 == 0 else f / (1 + 8e-6)
+
+
 def _edit_and_reassign_rt(o):
     """the caller keeps the array it assigned, edits it in place and assigns the same container again"""
     p = np.array(_toggle(o.response_times, RT), dtype=float)
@@ -110,9 +127,15 @@ def build_ops(cls):
     if cls == 'AccSignal':
         add('regen:generate_response_spectrum', 'read', lambda o: o.generate_response_spectrum(), 'resp')
         add('regen:generate_displacement_and_velocity_series', 'read', lambda o: o.generate_displacement_and_velocity_series(), 'dv')
+    if cls == 'AccSignal':
+        # deprecated public methods that compute statistics and store them as attributes of the object (they may raise on this
+        # numpy: np.trapz is gone - an operation that raises is still an operation of the history)
+        add('regen:generate_cumulative_stats', 'read', lambda o: o.generate_cumulative_stats(), 'stats')
+        add('regen:generate_all_motion_stats', 'read', lambda o: o.generate_all_motion_stats(), 'stats')
     # mutators (fixed, effective arguments)
     add('mut:reset_values', 'mut', lambda o: o.reset_values(np.array(o.values, dtype=float)[::-1] * 1.5 + 0.1))
     add('mut:reset_values(other length)', 'mut', lambda o: o.reset_values(_resized(o)))
+    add('mut:reset_values(shorter, same power-of-two bucket)', 'mut', lambda o: o.reset_values(_shortened(o)))
     add('mut:add_constant', 'mut', lambda o: o.add_constant(0.7))
     add('mut:add_series', 'mut', lambda o: o.add_series(np.linspace(-1, 1, o.npts) ** 2))
     add('mut:add_signal', 'mut', lambda o: o.add_signal(_other(o.npts)))
@@ -136,6 +159,7 @@ def build_ops(cls):
         add('mut:set_zero_residual_displacement_and_velocity', 'mut', lambda o: o.set_zero_residual_displacement_and_velocity())
     # settings (each toggles between two menu values)
     add('set:smooth_fa_freqs', 'sf', lambda o: setattr(o, 'smooth_fa_freqs', _toggle(o.smooth_fa_freqs, SF)))
+    add('set:smooth_fa_freqs(nearly the same)', 'sf', _nearly_same_sf)
     add('set:smooth_fa_frequencies', 'sf', lambda o: setattr(o, 'smooth_fa_frequencies', _toggle(o.smooth_fa_freqs, SF)))
     add('set:set_smooth_fa_frequecies_by_range', 'sf',
         lambda o: o.set_smooth_fa_frequecies_by_range((0.5, 20.0) if abs(o.smooth_fa_freqs[0] - 0.5) > 1e-9 or len(o.smooth_fa_freqs) != 5 else (1.0, 10.0), 5))
@@ -434,6 +458,9 @@ def run_case(case):
                         changed.append(rname)
                 except Exception:
                     pass
+            if name == 'set:smooth_fa_freqs(nearly the same)':
+                r.cls('effective:' + name)     # changes the frequencies by 8e-6: visible at the 1e-9 tolerance of the invariant, not at the 1e-6 of this probe
+                continue
             need = {'mut': ['fa_spectrum', 'smooth_fa_spectrum'] + (['velocity', 'displacement', 'pgv', 'pgd', 's_a', 's_d'] if cls == 'AccSignal' else []),
                     'sf': ['smooth_fa_spectrum', 'smooth_fa_freqs'], 'rt': ['s_a', 's_d', 'response_times']}[k]
             if k == 'mut' and 'smooth_fa_spectrum' not in changed and all(x in changed for x in need if x != 'smooth_fa_spectrum'):
